@@ -34,6 +34,8 @@ func runC18(c *an.Ctx) {
 	r18h(c)
 	r18i(c)
 	r18j(c)
+	// round 8
+	r18k(c)
 }
 
 func r18a(c *an.Ctx) {
@@ -110,13 +112,18 @@ func r18a(c *an.Ctx) {
 		}
 		ok := false
 		for _, ci := range an.CallsSuffix(rc, "scheduler/controller.WithFrameworkID") {
+			// the getter of the store itself (read at every subscription), not a value read from it once
+			getter, isGetter := an.Strip(ci.Common().Args[0]).(*ssa.Call)
+			if !isGetter || !strings.HasSuffix(an.CalleeName(&getter.Call), "store.GetIgnoreErrors") {
+				continue
+			}
 			for _, l := range an.BackSlice(ci.Common().Args[0], an.SliceOpts{}) {
 				if l.Kind == "param" && l.Val == ssa.Value(storeParam) {
 					ok = true
 				}
 			}
 		}
-		c.Ob("core/task.runSchedulerController|subscribe-with-stored-id", rc.Pos(), ok && storeParam != nil, "controller.Run must subscribe with the framework id from the id store")
+		c.Ob("core/task.runSchedulerController|subscribe-with-stored-id", rc.Pos(), ok && storeParam != nil, "controller.Run must subscribe with the id store's getter itself (store.GetIgnoreErrors(fidStore)), read at every (re)subscription: an id read once when the controller starts is empty on a first start, so every later reconnection registers a new framework and strands the running tasks")
 	}
 	if bh := c.MustFn("core/task", "schedulerState.buildEventHandler"); bh != nil {
 		c.Subject()
